@@ -18,16 +18,21 @@ type leaseMon struct {
 	via       string // acq | acqx
 	id        string
 	closes    int
-	delivered string // peer that read a handoff frame carrying this lease's id
-	failSince int64  // run time (ms) of the first renewal of the current run of renewals that did not succeed; -1 none
-	failKind  string // expired | errors
-	cidCalls  int    // ClusterID calls since the lease was obtained (the first belongs to the tenure)
-	loopMoved bool   // the loop is known to have left this lease's tenure behind
-	closedAt  int    // index of the first close event
-	reqFor    map[string]bool
-	renewOKAfterReq bool
-	loopCID   string // what the loop-top ClusterID had answered when the lease was obtained
+	delivered string   // peer that read a handoff frame carrying this lease's id
+	failSince int64    // run time (ms) of the first renewal of the current run of renewals that did not succeed; -1 none
+	failKind  string   // expired | errors
+	cidCalls  int      // ClusterID calls since the lease was obtained (the first belongs to the tenure)
+	loopMoved bool     // the loop is known to have left this lease's tenure behind
+	closedAt  int      // index of the first close event
+	reqs      []*hoReq // accepted handoff requests not yet served, oldest first
+	loopCID   string   // what the loop-top ClusterID had answered when the lease was obtained
 	localAt   string
+}
+
+// hoReq is one handoff request the store accepted.
+type hoReq struct {
+	node    string
+	renewOK bool // a renewal of the lease succeeded after the request was accepted
 }
 
 // monitors evaluates the clauses of C08 on the observations recorded for one run. It looks only
@@ -48,8 +53,8 @@ func monitors(cfg cfgT, log []event) (fails []fail, evals int) {
 	}
 	leases := map[int]*leaseMon{}
 	var cur *leaseMon
-	loopCID := ""           // last answer of a loop-top ClusterID call
-	svcCID := ""            // the lease service's cluster id as last reported to / set by the node
+	loopCID := "" // last answer of a loop-top ClusterID call
+	svcCID := ""  // the lease service's cluster id as last reported to / set by the node
 	ttl := int64(cfg.TTL)
 
 	setLoopMoved := func() {
@@ -131,6 +136,21 @@ func monitors(cfg cfgT, log []event) (fails []fail, evals int) {
 				}
 			}
 			if e.Ev == "quiesce" {
+				// the call was made (and parked): the clauses about making it apply
+				switch e.C {
+				case "ACQ":
+					evals++
+					if !cfg.Cand {
+						add("C08.noncandidate-never-acquires", "noncandidate/acquire", "Leaser.Acquire was called by a non-candidate", e)
+					}
+					fallthrough
+				case "ACQX":
+					evals++
+					if loopCID != "" && loopCID != e.Local {
+						add("C08.own-cluster-only", "own-cluster/"+e.C+"/loop-check=foreign",
+							fmt.Sprintf("%s called although the lease service reported cluster id %q and the stored one is %q", e.C, loopCID, e.Local), e)
+					}
+				}
 				break
 			}
 			switch e.C {
@@ -169,7 +189,7 @@ func monitors(cfg cfgT, log []event) (fails []fail, evals int) {
 				}
 				if e.A == "ok" {
 					n := len(leases) + 1
-					cur = &leaseMon{n: n, via: map[string]string{"ACQ": "acq", "ACQX": "acqx"}[e.C], failSince: -1, reqFor: map[string]bool{}, loopCID: loopCID, localAt: e.Local, id: e.LeaseID}
+					cur = &leaseMon{n: n, via: map[string]string{"ACQ": "acq", "ACQX": "acqx"}[e.C], failSince: -1, loopCID: loopCID, localAt: e.Local, id: e.LeaseID}
 					leases[n] = cur
 				}
 			case "RENEW":
@@ -179,8 +199,8 @@ func monitors(cfg cfgT, log []event) (fails []fail, evals int) {
 				}
 				if e.A == "ok" {
 					l.failSince = -1
-					if len(l.reqFor) > 0 {
-						l.renewOKAfterReq = true
+					for _, q := range l.reqs {
+						q.renewOK = true
 					}
 				} else if l.failSince < 0 {
 					l.failSince = e.At
@@ -189,8 +209,7 @@ func monitors(cfg cfgT, log []event) (fails []fail, evals int) {
 			}
 			// handoff requests accepted by the store
 			if (e.S == "ho1" || e.S == "ho1x") && e.Sr == "ok" && cur != nil {
-				cur.reqFor["N1"] = true
-				cur.renewOKAfterReq = false
+				cur.reqs = append(cur.reqs, &hoReq{node: "N1"})
 			}
 		case "close":
 			if l := leases[e.Lease]; l != nil {
@@ -203,12 +222,22 @@ func monitors(cfg cfgT, log []event) (fails []fail, evals int) {
 			// M6  the lease id goes only to the requested node, after a successful final renewal
 			evals++
 			l := leases[e.Lease]
+			var req *hoReq
+			if l != nil {
+				for i, q := range l.reqs {
+					if q.node == e.Node {
+						req = q
+						l.reqs = append(append([]*hoReq(nil), l.reqs[:i]...), l.reqs[i+1:]...)
+						break
+					}
+				}
+			}
 			switch {
 			case l == nil:
 				add("C08.handoff-only-to-requested", "handoff/frame-with-unknown-lease", "a handoff frame carries a lease id the node does not hold: "+e.LeaseID, e)
-			case !l.reqFor[e.Node]:
+			case req == nil:
 				add("C08.handoff-only-to-requested", "handoff/frame-to-unrequested-node", fmt.Sprintf("peer %s read a handoff frame although no handoff to it was requested", e.Node), e)
-			case !l.renewOKAfterReq:
+			case !req.renewOK:
 				add("C08.handoff-only-to-requested", "handoff/frame-without-final-renew", fmt.Sprintf("peer %s read a handoff frame although no renewal succeeded after the request", e.Node), e)
 			default:
 				l.delivered = e.Node
